@@ -16,6 +16,7 @@ import (
 
 	"github.com/projecteru2/core/cluster/calcium"
 	enginefactory "github.com/projecteru2/core/engine/factory"
+	"github.com/projecteru2/core/resource/cobalt"
 	"github.com/projecteru2/core/resource/plugins/cpumem"
 	cpumemtypes "github.com/projecteru2/core/resource/plugins/cpumem/types"
 	resourcetypes "github.com/projecteru2/core/resource/types"
@@ -38,6 +39,9 @@ type BootOpts struct {
 	// NoShims: calcium keeps its own store / resource manager / WAL (no recording decorators, no lock table):
 	// nothing of the harness sits between core's goroutines (C34)
 	NoShims bool
+	// PluginLayer: every resource plugin of the manager is wrapped in a PluginShim (layer "plugin") and a second
+	// plugin ("slots") is added, so that faults can hit single plugin calls and cobalt's partial-commit paths run
+	PluginLayer bool
 }
 
 // Cluster is one Calcium instance with its shims.
@@ -55,6 +59,7 @@ type Cluster struct {
 	Plug  *cpumem.Plugin  // an independent plugin handle on the same etcd (reads usage records)
 	KV    *meta.ETCD      // raw etcd access (dumps)
 	Redis *miniredis.Miniredis
+	Slots *SlotsPlugin // the second plugin (BootOpts.PluginLayer), nil otherwise
 }
 
 var engineCacheInit bool
@@ -136,6 +141,18 @@ func Boot(t *testing.T, b *Boundary, o BootOpts, shared *Cluster) *Cluster {
 		cl.Locks = NewLockTable()
 	}
 	cl.Store = &StoreShim{Real: cl.Raw, B: b, Inst: o.Inst, Locks: cl.Locks}
+	if o.PluginLayer {
+		mgr, ok := c.VerifRmgr().(*cobalt.Manager)
+		if !ok {
+			t.Fatalf("resource manager is %T, not *cobalt.Manager", c.VerifRmgr())
+		}
+		ps := mgr.GetPlugins() // shares its backing array with the manager's own slice
+		for i := range ps {
+			ps[i] = &PluginShim{Real: ps[i], B: b, Inst: o.Inst}
+		}
+		cl.Slots = NewSlotsPlugin()
+		mgr.AddPlugins(&PluginShim{Real: cl.Slots, B: b, Inst: o.Inst})
+	}
 	cl.Rmgr = &RmgrShim{Real: c.VerifRmgr(), B: b, Inst: o.Inst}
 	cl.WAL = &WALShim{Real: c.VerifWAL(), B: b, Inst: o.Inst}
 	if !o.NoShims {
@@ -161,6 +178,9 @@ func (cl *Cluster) WipeEtcd() {
 	_, _ = cl.KV.Delete(context.Background(), "_", clientv3.WithPrefix())
 	if cl.Redis != nil {
 		cl.Redis.FlushAll()
+	}
+	if cl.Slots != nil {
+		cl.Slots.Reset()
 	}
 }
 
@@ -232,6 +252,7 @@ type NodeSnap struct {
 	Bypass   bool              `json:"bypass"`
 	Capacity string            `json:"capacity"` // canonical JSON of the plugin's capacity record ("" = no record)
 	Usage    string            `json:"usage"`
+	Slots    string            `json:"slots,omitempty"` // "used/capacity" of the second plugin ("" = not recorded there / no second plugin)
 }
 
 // Snapshot is the normalised, semantic state of the cluster.
@@ -240,6 +261,7 @@ type Snapshot struct {
 	Nodes      map[string]NodeSnap     `json:"nodes"`
 	Workloads  map[string]WorkloadSnap `json:"workloads"`
 	Resource   []string                `json:"resource_records"` // node names with a plugin record
+	SlotNodes  []string                `json:"slot_records,omitempty"` // node names the second plugin knows (plugin layer only)
 	Index      map[string][]string     `json:"index"`            // deploy / node-workloads / workloads key sets (ids)
 	Processing []string                `json:"processing"`
 	Containers map[string][]string     `json:"containers"`       // host -> "id:state"
@@ -325,6 +347,14 @@ func (cl *Cluster) Snapshot(ctx context.Context) *Snapshot {
 	for n := range recs {
 		s.Resource = append(s.Resource, n)
 	}
+	var slots map[string]string
+	if cl.Slots != nil {
+		slots = cl.Slots.Dump()
+		for n := range slots {
+			s.SlotNodes = append(s.SlotNodes, n)
+		}
+		sort.Strings(s.SlotNodes)
+	}
 	sort.Strings(s.Resource)
 	for k, v := range keys {
 		switch {
@@ -342,6 +372,9 @@ func (cl *Cluster) Snapshot(ctx context.Context) *Snapshot {
 			}
 			if r, ok := recs[n.Name]; ok {
 				ns.Capacity, ns.Usage = canonNodeResource(r.Capacity), canonNodeResource(r.Usage)
+			}
+			if slots != nil {
+				ns.Slots = slots[n.Name]
 			}
 			s.Nodes[n.Name] = ns
 		case strings.HasPrefix(k, "/node/") && strings.Contains(k, ":pod/"):
@@ -404,6 +437,9 @@ func (s *Snapshot) Equal(o *Snapshot) string {
 			if x.Usage != y.Usage {
 				return fmt.Sprintf("node %s usage: %s -> %s", n, x.Usage, y.Usage)
 			}
+			if x.Slots != y.Slots {
+				return fmt.Sprintf("node %s usage/capacity of the second plugin (slots): %s -> %s", n, x.Slots, y.Slots)
+			}
 			return fmt.Sprintf("node %s: %s -> %s", n, canon(x), canon(y))
 		}
 	}
@@ -414,6 +450,9 @@ func (s *Snapshot) Equal(o *Snapshot) string {
 	}
 	if a, b := canon(s.Resource), canon(o.Resource); a != b {
 		return fmt.Sprintf("node resource records: %s -> %s", a, b)
+	}
+	if a, b := canon(s.SlotNodes), canon(o.SlotNodes); a != b {
+		return fmt.Sprintf("node resource records of the second plugin (slots): %s -> %s", a, b)
 	}
 	for id, x := range s.Workloads {
 		y, ok := o.Workloads[id]
@@ -548,6 +587,31 @@ func (cl *Cluster) CheckInvariants(ctx context.Context, s *Snapshot) []Problem {
 	for n := range recs {
 		if _, ok := s.Nodes[n]; !ok {
 			out = append(out, Problem{Kind: "resource-without-node", Node: n, What: "resource record of " + n + " belongs to no recorded node"})
+		}
+	}
+	if cl.Slots != nil {
+		sl := map[string]int64{}
+		for _, w := range s.Workloads {
+			var res resourcetypes.Resources
+			_ = json.Unmarshal([]byte(w.Res), &res)
+			if p, ok := res[SlotsName]; ok {
+				sl[w.Node] += p.Int64("slots")
+			}
+		}
+		for n := range s.Nodes {
+			used, ok := cl.Slots.Used(n)
+			if !ok {
+				out = append(out, Problem{Kind: "node-without-resource", Node: n, What: "node " + n + " has no record in the second plugin (slots)"})
+				continue
+			}
+			if used != sl[n] {
+				out = append(out, Problem{Kind: "usage-mismatch", Node: n, What: fmt.Sprintf("node %s slots usage %d != sum of recorded workloads %d (second plugin)", n, used, sl[n])})
+			}
+		}
+		for _, n := range s.SlotNodes {
+			if _, ok := s.Nodes[n]; !ok {
+				out = append(out, Problem{Kind: "resource-without-node", Node: n, What: "record of " + n + " in the second plugin (slots) belongs to no recorded node"})
+			}
 		}
 	}
 	// index key sets must agree with the workload records
